@@ -50,11 +50,12 @@ def run(rep):
     if True:
         rep.check('S' in atoms, 'C08.struct-only', 'struct-only', where, f'items are not restricted to TypeInner::Struct ({E.show(pred, maxdepth=5)})',
                   ok_detail='items only for TypeInner::Struct')
-        rep.check({'A', 'B', 'C'} <= set(atoms), 'C08.filter-formula', 'atoms', where,
-                  f'cannot recognise the three atoms of the selection predicate (found {sorted(atoms)}) in {E.show(pred, maxdepth=6)}: A = "some entry point returns exactly this type", '
-                  f'B = "some entry point takes an argument of exactly this type" (classified by evaluating the extracted conditions on model entry points), C = membership in the closure set',
-                  ok_detail='A: result type == h, B: some argument type == h, C: closure contains h')
-        if set(atoms) == {'S', 'A', 'B', 'C'}:
+        rep.check('C' in atoms and bool(atoms.tables), 'C08.filter-formula', 'atoms', where,
+                  f'cannot recognise the atoms of the selection predicate (found {sorted(atoms)}) in {E.show(pred, maxdepth=6)}: A = "some entry point returns exactly this type", '
+                  f'B = "some entry point takes an argument of exactly this type" or a combination of the two (classified by evaluating the extracted conditions on model entry points), '
+                  f'C = membership in the closure set',
+                  ok_detail=f'entry-point atoms {sorted(atoms.tables)} (truth tables over A: result type == h, B: some argument type == h), C: closure contains h')
+        if atoms.complete():
             other = []
 
             def find_other(x):
@@ -65,13 +66,9 @@ def run(rep):
                 if x[0] in ('eq', 'is'):
                     other.append(x)
             E.walk(pred, find_other)
-            rep.check(not other, 'C08.filter-formula', 'no-other-atom', where, f'the predicate also depends on {[E.show(o, maxdepth=5) for o in other][:3]}', ok_detail='only S, A, B, C')
+            rep.check(not other, 'C08.filter-formula', 'no-other-atom', where, f'the predicate also depends on {[E.show(o, maxdepth=5) for o in other][:3]}', ok_detail='only S, C and conditions on the entry points')
             for vs, va, vb, vc in itertools.product([True, False], [False, True], [False, True], [False, True]):
-                def leaf(t, vs=vs, va=va, vb=vb, vc=vc):
-                    for k_, v_ in (('S', vs), ('A', va), ('B', vb), ('C', vc)):
-                        if t == atoms[k_]:
-                            return (v_,)
-                    return None
+                leaf = atoms.leaf(vs, va, vb, vc)
                 key = f'row:A={int(va)},B={int(vb)},C={int(vc)}' + ('' if vs else ',not-a-struct')
                 try:
                     got = Eval(leaf, lenient=False).truth(pred)
@@ -167,9 +164,38 @@ def run(rep):
     rep.check(ok_seed, 'C08.closure-seed', f'seed:{q}', where, 'the closure is not seeded with the type of every module.global_variables element (unfiltered)', ok_detail='for g in module.global_variables: closure(g.ty)')
 
 
-def classify_any(ogp, term, modP, h):
-    """classify an `any` over module.entry_points by its behaviour on model entry points: 'A' = some entry point's result type is h,
-    'B' = some entry point has an argument of type h, None otherwise (the extracted condition is evaluated, not pattern-matched)"""
+TABLE_A = {(False, False): False, (True, False): True, (False, True): False, (True, True): True}
+TABLE_B = {(False, False): False, (True, False): False, (False, True): True, (True, True): True}
+
+
+class Atoms(dict):
+    """label -> term of the atoms of the selection predicate: 'S' (the type is a struct), 'C' (membership in the closure set) and the atoms that
+    depend on the entry points, each with its truth table over (A, B) in .tables[label] (A = some entry point returns exactly this type,
+    B = some entry point takes an argument of exactly this type): 'A', 'B', or a combination such as `inputs_minus_outputs.contains(h)`"""
+    def __init__(self):
+        super().__init__()
+        self.tables = {}
+
+    def complete(self):
+        return 'S' in self and 'C' in self and bool(self.tables)
+
+    def leaf(self, vs, va, vb, vc):
+        def leaf(t):
+            for k_, term in self.items():
+                if t == term:
+                    if k_ == 'S':
+                        return (vs,)
+                    if k_ == 'C':
+                        return (vc,)
+                    return (self.tables[k_][(va, vb)],)
+            return None
+        return leaf
+
+
+def classify_ep(ogp, term, modP, h):
+    """truth table over (A, B) of a condition on the entry points, by its behaviour on model entry points: A = some entry point's result
+    type is h, B = some entry point has an argument of type h (the extracted condition is evaluated, not pattern-matched); None when the
+    term is not such a condition or does not behave as a function of (A, B) on the model worlds"""
     import engine_skel as K
     mentions_eps = []
     E.walk(term, lambda x: mentions_eps.append(1) if x == ('f', modP, 'entry_points') else None)
@@ -185,9 +211,10 @@ def classify_any(ogp, term, modP, h):
         return V('naga::EntryPoint', name='e', stage=V('naga::ShaderStage::Vertex'), function=fn)
     H_, O_ = 'H', 'OTHER'
     worlds = [([], (False, False)), ([entry(None, [])], (False, False)), ([entry(H_, [])], (True, False)), ([entry(O_, [O_])], (False, False)), ([entry(O_, [O_, H_])], (False, True)),
-              ([entry(None, [O_]), entry(H_, [H_])], (True, True)), ([entry(O_, []), entry(None, [H_])], (False, True))]
-    got = []
-    for eps, _ in worlds:
+              ([entry(None, [O_]), entry(H_, [H_])], (True, True)), ([entry(O_, []), entry(None, [H_])], (False, True)),
+              ([entry(H_, [O_]), entry(O_, [H_, O_])], (True, True)), ([entry(O_, [H_]), entry(H_, [])], (True, True)), ([entry(H_, [O_]), entry(None, [])], (True, False))]
+    table = {}
+    for eps, ab in worlds:
         def leaf(t, eps=eps):
             if t == ('f', modP, 'entry_points'):
                 return (eps,)
@@ -195,25 +222,37 @@ def classify_any(ogp, term, modP, h):
                 return (H_,)
             return None
         try:
-            got.append(bool(K.SkelEval(ogp, None, {}, '', None, extra_leaf=leaf).ev(term)))
+            got = bool(K.SkelEval(ogp, None, {}, '', None, extra_leaf=leaf).ev(term))
         except (Unbound, Diverge):
             return None
-    if got == [w[1][0] for w in worlds]:
-        return 'A'
-    if got == [w[1][1] for w in worlds]:
-        return 'B'
-    return None
+        if table.setdefault(ab, got) != got:
+            return None        # not a function of (A, B): e.g. sensitive to the order or the number of entry points
+    if len(set(table.values())) == 1:
+        return None
+    return table
+
+
+def classify_any(ogp, term, modP, h):
+    tb = classify_ep(ogp, term, modP, h)
+    return 'A' if tb == TABLE_A else 'B' if tb == TABLE_B else None
 
 
 def predicate_and_atoms(ogp, st, modP, elem, h):
     pred = ('true',) if not st[4] else st[4][0] if len(st[4]) == 1 else ('and', list(st[4]))
-    atoms = {}
+    atoms = Atoms()
     inner = ('f', ('tf', elem, 1), 'inner')
 
     def classify(x):
-        k = classify_any(ogp, x, modP, h)
-        if k:
-            atoms.setdefault(k, x)
+        tb = classify_ep(ogp, x, modP, h)
+        if tb:
+            k = 'A' if tb == TABLE_A else 'B' if tb == TABLE_B else 'E' + ''.join(str(int(tb[ab])) for ab in sorted(tb))
+            if k not in atoms:
+                atoms[k] = x
+                atoms.tables[k] = tb
+            elif atoms[k] != x:
+                k2 = k + '#' + str(len(atoms))
+                atoms[k2] = x
+                atoms.tables[k2] = tb
             return False
         if x[0] == 'mcall' and x[2] == 'contains' and x[3] == [h] and x[1][0] == 'new':
             atoms.setdefault('C', x)
@@ -243,7 +282,7 @@ def selection_predicate(ogp):
     elem = ('elem', st[2], st[1])
     h = ('tf', elem, 0)
     pred, atoms = predicate_and_atoms(ogp, st, modP, elem, h)
-    if set(atoms) != {'S', 'A', 'B', 'C'}:
+    if not atoms.complete():
         return None, None
     return pred, atoms
 
